@@ -1,4 +1,5 @@
 PROP = {
+    "gen": ["setters", "pure"],
     "title": "XML -> Map -> XML -> Map is a fixed point; re-encoded XML is well formed",
     "run_modules": ["RunXml2"],
     "n": {"quick": 650, "thorough": 6000},
